@@ -15,6 +15,7 @@ from harness.lib import scen
 from harness.lib.core import VERIF, Ctx, Rng, lean_lock, run_driver
 from harness.rigs import config as R
 
+MANIFEST_DISABLED = "being adapted to F-22 fix ed113ec (configured re-install replaces the old instance)"
 MANIFEST = {
     "text": "Lean 4 proof about an executable model of the scenario loader (PrimaiteGame.from_config with the computer/server/switch/"
             "router/firewall from_config paths, software install, users, folders/files, links, agents with action maps): for EVERY "
